@@ -202,7 +202,8 @@ def run(s):
             pool = gen.text_pool('plain')
             if c % 4 == 2:
                 pool = gen.text_pool('hostile')      # non-ASCII text, and (below) strings that still carry a declaration
-            ro_txt = gen.rand_ro(rng, n_stories=rng.randint(0, 5), pool=pool, message_id=rng.choice([1, 1, 1, 14, 23]))
+            ro_txt = gen.rand_ro(rng, n_stories=rng.randint(0, 5), pool=pool, message_id=rng.choice([1, 1, 1, 14, 23]),
+                                 ed_start='wild' if c % 4 == 1 else 'auto')
             state = Abs(ro_txt)
             ids = gen.Ids('L%d.' % c)
             docs = [ro_txt]
